@@ -295,7 +295,10 @@ def ops_for(st, bd, level):
             ops.append(("to_meshtri(x=..,style='x')",
                         lambda m: m.to_meshtri(x=np.arange(m.t.shape[1], dtype=float), style='x'), j_split('tri', 4)))
     if kind == 'hex':
-        ops.append(('to_meshtet()', lambda m: m.to_meshtet(), j_split('tet', 6)))
+        from ..topo import hex_faces_planar
+        if hex_faces_planar(st.p, st.t):
+            ops.append(('to_meshtet()', lambda m: m.to_meshtet(), j_split('tet', 6)))
+        # (a hexahedron with non-planar faces cannot be tiled by tetrahedra of the same measure: outside the claim)
     if kind == 'wedge':
         ops.append(('to_meshtet()', lambda m: m.to_meshtet(), j_split('tet', 3)))
 
